@@ -36,7 +36,7 @@ ANCHORS = ['io:from_json', 'io:from_yaml', 'io:from_yaml_all', 'io:write_json', 
            'classes:PaneBase.write_json', 'classes:PaneBase.write_yaml', 'classes:PaneBase.from_json', 'classes:PaneBase.from_yaml',
            'classes:PaneBase.from_yaml_all', 'classes:PaneBase.from_jsons', 'classes:PaneBase.from_yamls']
 MIN_COUNTERS = {'quick': {'round_trips': 8000, 'paths_opened_by_pane': 2500, 'caller_streams_checked': 3000, 'yaml_all_checked': 600,
-                          'returned_strings_checked': 300, 'non_ascii_payloads': 1200, 'failed_reads_checked': 300, 'offset_streams_checked': 300, 'foreign_encoding_streams_checked': 200, 'wrapper_streams_checked': 150}}
+                          'returned_strings_checked': 300, 'non_ascii_payloads': 1200, 'failed_reads_checked': 300, 'offset_streams_checked': 300, 'foreign_encoding_streams_checked': 200, 'wrapper_streams_checked': 150, 'subclass_key_documents': 100}}
 
 ALLOW = ('int', 'float', 'str', 'bool', 'none', 'list', 'seq', 'dict', 'tup', 'union', 'dc', 'enum', 'lit', 'fraction', 'decimal',
          'date', 'time', 'datetime', 'path', 'deque', 'sub', 'cc', 'set', 'bytes')
@@ -452,6 +452,39 @@ def run(ctx):
             del OPENED[:]
 
     drive.for_each_case(ctx, 'wrapper-streams', 30, body_wrapper_streams, gen=lambda c, r: Ty('int'), seconds=30)
+
+    # keys of untyped mappings that are instances of str SUBCLASSES (a `class Name(str)`, a member of a str-mixin enum): written as the
+    # plain strings they are (a dumper refuses such objects), like values of those classes; the document reads back as plain data
+    def body_subclass_keys(i, rng, ty, T):
+        import enum as _enum
+        import typing as _t
+
+        class Name(str):
+            pass
+
+        class Colour(str, _enum.Enum):
+            RED = 'red'
+        key = rng.choice((Name('alpha'), Colour.RED, Name('h\u00e9llo')))
+        x = {key: 1, 'plain': 2}
+        TT = rng.choice((dict, _t.Dict[_t.Any, int], _t.Dict[_t.Any, _t.Any], _t.Any, _t.Mapping))
+        fmt = rng.choice(('yaml', 'json'))
+        plain_key = key.value if isinstance(key, _enum.Enum) else str(key)
+        path = fresh(fmt)
+        del OPENED[:]
+        w = observe(getattr(env.m_io, f"write_{fmt}"), x, path, ty=TT)
+        ctx.count('subclass_key_documents')
+        ctx.case(('subclass-keys', fmt, str(TT)[:24], type(key).__name__, w.kind), nontrivial=True)
+        wit = {'format': fmt, 'type': short(TT, 60), 'value': short(x), 'write': w.brief()[:200]}
+        if w.kind != 'value':
+            ctx.violation('write', 'subclass-keys', i, wit, mech=f"write-{fmt}-raised:str-subclass-key")
+            del OPENED[:]
+            return
+        r = observe(getattr(env.m_io, f"from_{fmt}"), path, _t.Dict[str, int])
+        del OPENED[:]
+        if r.kind != 'value' or r.val != {plain_key: 1, 'plain': 2} or any(type(k_) is not str for k_ in r.val):
+            ctx.violation('round-trip', 'subclass-keys', i, {**wit, 'read_back': r.brief()[:200]}, mech='str-subclass-key-not-written-as-plain-text')
+
+    drive.for_each_case(ctx, 'subclass-keys', 20, body_subclass_keys, gen=lambda c, r: Ty('int'), seconds=30)
 
     # ---- multi-document YAML: one converted value per document -------------------------------------------------------------
     def body_all(i, rng, ty, T):
